@@ -139,9 +139,17 @@ def open_options(f, opn):
     from l4sa.core import ShapeUnrecognised, calls_in, walk
     chain = opn.arg(0)
     opts, seen = {}, set()
+    from l4sa import q as _q
+
+    def argval(block, fallback):
+        # boolean arguments with their short-circuit structure made explicit
+        t = f.term(block)
+        if t["k"] == "call" and len(t.get("args", [])) == 2 and (t.get("arg_tys") or ["", ""])[1] == "bool":
+            return _q.bool_value(f, t["args"][1])
+        return fallback
     for c in calls_in(chain):
         if c[1].startswith(OO) and len(c[2]) == 2:
-            opts.setdefault(c[1].rsplit("::", 1)[-1], []).append(c[2][1])
+            opts.setdefault(c[1].rsplit("::", 1)[-1], []).append(argval(c[3], c[2][1]))
             seen.add(c[3])
     roots = {c[3] for c in calls_in(chain) if c[1] == OO + "new"}
     if roots:
@@ -150,7 +158,7 @@ def open_options(f, opn):
             if not n.startswith(OO) or len(cs.args) != 2 or cs.block in seen:
                 continue
             if any(x[0] == "call" and x[1] == OO + "new" and x[3] in roots for x in walk(cs.arg(0))) and f.dominates(cs.block, opn.block):
-                opts.setdefault(n.rsplit("::", 1)[-1], []).append(cs.arg(1))
+                opts.setdefault(n.rsplit("::", 1)[-1], []).append(argval(cs.block, cs.arg(1)))
                 seen.add(cs.block)
     for k, v in opts.items():
         if len(v) > 1:
